@@ -339,6 +339,8 @@ def run(ctx, tier):
     import c06
     for r in c06.open_existing(ctx, rule='C15.refusal-write-free'):
         results.append(r)
+    import c16
+    results += c16.no_pow2_arith(ctx, rule='C15.no-pow2-arith')
     results += c05.serialiser_total(ctx, rule='C15.serialiser-total')
     results += c05.reader_writer_tables(ctx, rule='C15.reader-writer-tables')
     return dict(
@@ -348,5 +350,5 @@ def run(ctx, tier):
             'structs, the evaluated format constants, the ordered checksum recipes (hasher type, field order, big-endian encoding) of the current and the legacy header, and the '
             'constants of the creation image all equal format_pinned.json (taken from the pinned release); header selection tries the current format first and still reaches the '
             'legacy validation, whose conversion copies every field from its namesake and re-seals; the commit writes every header field from its namesake; a header is only used '
-            'behind a page-size comparison that refuses a mismatch, and opening an existing file is write-free (so the refusal leaves the file unmodified); element serialiser and readers agree on the fields. NOT decided: that a file opens with identical logical contents.'),
+            'behind a page-size comparison that refuses a mismatch, and opening an existing file is write-free (so the refusal leaves the file unmodified); element serialiser and readers agree on the fields; no mask / shift arithmetic on the page size (files at non-power-of-two page sizes such as 5000 are supported). NOT decided: that a file opens with identical logical contents.'),
         assumptions=['format_pinned.json is the format of the pinned release (generated from it once and cross-checked with layout_of)'])
